@@ -631,3 +631,44 @@ class ArgumentNamesValidate(Rule):
 
 
 CONTRACTS += [RequiredArgumentsDirective(), RequiredArgumentsField(), RequiredArgumentsValidate(), ArgumentNamesValidate()]
+
+
+# ---- 5.8.1 variable uniqueness: the variables of the definitions (a mapped list) carry pairwise different names
+from pyvc.values import MapList        # noqa: E402
+
+VarsOf = MapList('variable_of_definition', lambda d: attr0(d, 'variable'))
+AllVarDefs = ForallList('variable_definition_declaring_a_variable', lambda d: z3.And(exact(d, 'VariableDefinitionNode'), V.oref(d) >= 0, exact(attr0(d, 'variable'), 'VariableNode'), V.oref(attr0(d, 'variable')) >= 0,
+                                                                     named(attr0(d, 'variable'))))
+
+
+class VariableUniqueness(Rule):
+    """5.8.1: no two variable definitions of an operation declare the same variable name"""
+    key = Q + 'variable_uniqueness.py::VariableUniqueness.validate'
+    params = ['self', 'path', 'variable_definitions']
+    self_class = 'VariableUniqueness'
+    comp_maps = {0: (VarsOf, lambda en: [])}
+    comp_all = {0: [(AllNameable, []), (AllAstNodes, []), (AllHaveNames, [])]}
+
+    def _xs(self, A):
+        return VarsOf(V.items(A['variable_definitions']))
+
+    def pre(self, A, st):
+        ds = A['variable_definitions']
+        return self.rule_pre(A) + [('definitions', z3.And(V.is_List(ds), AllVarDefs(V.items(ds))))]
+
+    def _inv(self, en, st, k, st0):
+        xs = self._xs(self.A)
+        errors = V.items(en.read(st.env['errors'], st))
+        tested = V.items(en.read(st.env['already_tested'], st))
+        return {'errors_iff_a_duplicated_name_so_far': VL.is_nil(errors) == NameIsUnique(take(xs, k), xs), 'tested_names_were_reported': VL.is_nil(tested) == VL.is_nil(errors)}
+
+    @property
+    def loops(self):
+        return {0: LoopContract(self._inv)}
+
+    def broken(self, A):
+        xs = self._xs(A)
+        return z3.Not(NameIsUnique(xs, xs))
+
+
+CONTRACTS.append(VariableUniqueness())
